@@ -23,12 +23,12 @@ TRUSTED = [
     'checked structurally by simdist (a future exists only after its issue)',
     'kfac_comm_proj covers the data collectives of hooks, step(), load_state_dict() and memory_usage(); the new_group calls of '
     'the constructor is covered per observed run by the verified checker proj_ok_b only; GPT-NeoX group creation by C12 '
-    '(new_group_same_order) and GPT-NeoX traffic by proj_ok_b on the logs of every C11 / C18 run',
+    '(new_group_same_order); GPT-NeoX traffic by neox_comm_proj with the exact-log tie run in C11 (unbucketed) and by proj_ok_b on the logs of every C11 / C18 run',
     'inverse workers given to the model come from a public KAISAAssignment built with the same arguments (C06 / C17); '
     'dtype equality of matching collectives is checked by simdist (not modelled: inst.idtype = 0)',
 ]
 THEOREMS = ['proj_ok_sound', 'members_issue_same_sequence', 'no_foreign_group', 'no_deadlock', 'every_execution_completes',
-            'kfac_comm_proj', 'kfac_never_stalls']
+            'kfac_comm_proj', 'kfac_never_stalls', 'neox_comm_proj', 'neox_never_stalls']
 NOTES = ('kfac_comm_proj proves, for every KAISA grid, method, layer table, bucket capacity and history, that the K-FAC programs are '
          'projections of one global order (hence never stall, kfac_never_stalls); the tie checks that the generator IS what the code issues. '
          'Constructor new_group calls and GPT-NeoX communication are covered per observed run by proj_ok_b (proj_ok_sound).')
